@@ -246,6 +246,10 @@ def upd(e, k, v):
     return {"n": "upd", "e": e, "k": k, "v": v}
 
 
+def freeze(e):
+    return {"n": "freeze", "e": e}
+
+
 # ---------------------------------------------------------------- printer
 def p_val(v):
     t = v["t"]
@@ -375,4 +379,6 @@ def pp(e):
         return "(swap %s, %s)" % (p_target(e["a"]), p_target(e["b"]))
     if n == "upd":
         return "(%s){%s = %s}" % (pp(e["e"]), pp(e["k"]), pp(e["v"]))
+    if n == "freeze":
+        return "(freeze %s)" % pp(e["e"])
     raise ValueError(n)
